@@ -293,12 +293,22 @@ class Material(MutableMapping[str, str]):
         f.write(quote(self.shader) + '\n\t{\n')
         for param in self._params.values():
             f.write(f'\t{quote(param.name)} {quote(param.value)}\n')
+        def write_block(block: Keyvalues, indent: str) -> None:
+            """Write a block. parse() doesn't process escapes, so don't produce any."""
+            if block.has_children():
+                f.write(f'{indent}"{block.real_name}"\n{indent}\t{{\n')
+                for child in block:
+                    write_block(child, indent + '\t')
+                f.write(f'{indent}\t}}\n')
+            else:
+                f.write(f'{indent}"{block.real_name}" "{block.value}"\n')
+
         for block in self.blocks:
-            block.serialise(f, start_indent='\t')
+            write_block(block, '\t')
         if self.proxies:
             f.write('\n\tProxies\n\t\t{\n')
             for block in self.proxies:
-                block.serialise(f, start_indent='\t\t')
+                write_block(block, '\t\t')
             f.write('\t\t}\n')
         f.write('\t}\n')
 
